@@ -100,6 +100,11 @@ impl WorkerMonitor {
     pub fn make_request(&self, goal: WorkerGoal) {
         let mut guard = self.sync.lock().unwrap();
         let newly_requested = guard.goals.set_request(goal);
+        #[cfg(mmtk_verif)]
+        crate::verif::events::emit(|| crate::verif::events::Ev::Request {
+            goal: enum_map::Enum::into_usize(goal) as u8,
+            newly: newly_requested,
+        });
         if newly_requested {
             self.notify_work_available(false);
         }
@@ -136,6 +141,12 @@ impl WorkerMonitor {
 
         // Park this worker
         let all_parked = sync.parker.inc_parked_workers();
+        #[cfg(mmtk_verif)]
+        crate::verif::events::emit(|| crate::verif::events::Ev::Park {
+            worker: ordinal,
+            parked: sync.parker.parked_workers,
+            total: sync.parker.worker_count,
+        });
         trace!(
             "Worker {} parked.  parked/total: {}/{}.  All parked: {}",
             ordinal,
@@ -149,6 +160,15 @@ impl WorkerMonitor {
         if all_parked {
             trace!("Worker {} is the last worker parked.", ordinal);
             let result = on_last_parked(&mut sync.goals);
+            #[cfg(mmtk_verif)]
+            crate::verif::events::emit(|| crate::verif::events::Ev::LastParked {
+                worker: ordinal,
+                result: match result {
+                    LastParkedResult::ParkSelf => 0,
+                    LastParkedResult::WakeSelf => 1,
+                    LastParkedResult::WakeAll => 2,
+                },
+            });
             match result {
                 LastParkedResult::ParkSelf => {
                     should_wait = true;
@@ -223,6 +243,11 @@ impl WorkerMonitor {
 
         // Unpark this worker.
         sync.parker.dec_parked_workers();
+        #[cfg(mmtk_verif)]
+        crate::verif::events::emit(|| crate::verif::events::Ev::Unpark {
+            worker: ordinal,
+            parked: sync.parker.parked_workers,
+        });
         trace!(
             "Worker {} unparked.  parked/total: {}/{}.",
             ordinal,
